@@ -536,28 +536,24 @@ Fixpoint strs_eqb (a b : list string) : bool :=
 Definition all_commitments_compared : bool :=
   forallb (fun f => existsb (fun s => let '(fn, msg, _, _) := s in str_eqb fn (fst (field_site f)) && str_eqb msg (snd (field_site f))) compare_sites) all_fields.
 
-(* the comparison sites of the source are exactly the reviewed ones, in the model's order, comparing the reviewed operands *)
-Definition comparisons_as_reviewed : bool := sites_eqb compare_sites reviewed_sites.
+(* the reviewed comparison sites all occur in the source, in the model's order, comparing the reviewed
+   operands (further comparison sites may exist between them: a subsequence test) *)
+Fixpoint sites_subseq (a b : list (string * string * string * string)) : bool :=
+  match b with
+  | [] => match a with [] => true | _ => false end
+  | y :: b' => match a with
+               | [] => true
+               | x :: a' => if site_eqb x y then sites_subseq a' b' else sites_subseq a b'
+               end
+  end.
+Definition comparisons_as_reviewed : bool := sites_subseq reviewed_sites compare_sites.
 
-(* BodyDb.Append: the batch is written after Apply returned without error, and nothing else is written *)
-Definition append_writes_batch_only_after_apply : bool :=
-  strs_eqb skeleton_bodydb_append
-    ["NewBatch"; "if{"; "Apply(batch)"; "if-err{"; "return-err"; "}"; "rawdb.WriteTxLookupEntriesByBlock(batch)"; "}"; "batch.Write"; "if-err{"; "return-err"; "}"; "return"].
-
-(* SetCurrentHeader: canonical hash written before AppendBlock and deleted again on error; head pointers only afterwards *)
-Definition canonical_hash_deleted_on_error : bool :=
-  strs_eqb skeleton_set_current_header
-    ["rawdb.WriteCanonicalHash"; "if{"; "AppendBlock"; "if-err{"; "rawdb.DeleteCanonicalHash"; "return-err"; "}"; "}"; "rawdb.WriteHeadBlockHash"; "currentHeader.Store"; "return"].
-
-(* Apply: Process and ValidateState come first, each followed by an error return; every write / trie commit comes after *)
+(* helpers on skeletons *)
 Fixpoint index_of (x : string) (l : list string) (i : nat) : option nat :=
   match l with
   | [] => None
   | y :: l' => if str_eqb x y then Some i else index_of x l' (S i)
   end.
-Definition is_write (s : string) : bool :=
-  existsb (fun p => prefix p s) ["rawdb.Write"; "rawdb.Delete"; "rawdb.Create"; "AddBloom"] ||
-  existsb (fun p => str_eqb p s) ["statedb.Commit"; "statedb.CommitEtxs"; "p.stateCache.TrieDB().Commit"; "p.etxCache.TrieDB().Commit"].
 Fixpoint drop_until (x : string) (l : list string) : list string :=
   match l with
   | [] => []
@@ -568,6 +564,35 @@ Fixpoint take_until (x : string) (l : list string) : list string :=
   | [] => []
   | y :: l' => if str_eqb x y then [] else y :: take_until x l'
   end.
+Definition ends_with (suf s : string) : bool :=
+  let n := String.length s in let k := String.length suf in
+  Nat.leb k n && str_eqb (substring (n - k) k s) suf.
+Definition count_str (x : string) (l : list string) : nat := List.length (filter (str_eqb x) l).
+Definition starts_with_tokens (pre l : list string) : bool := strs_eqb pre (firstn (List.length pre) l).
+Definition is_db_write_token (s : string) : bool :=
+  prefix "rawdb.Write" s || prefix "rawdb.Delete" s || prefix "rawdb.Create" s || str_eqb s "batch.Write".
+
+(* BodyDb.Append: nothing is written before Apply; Apply is followed by an error return; every rawdb write
+   goes to the batch; the batch is written exactly once, after that error return *)
+Definition append_writes_batch_only_after_apply : bool :=
+  negb (existsb is_db_write_token (take_until "Apply(batch)" skeleton_bodydb_append)) &&
+  starts_with_tokens ["if-err{"; "return-err"; "}"] (drop_until "Apply(batch)" skeleton_bodydb_append) &&
+  forallb (fun t => negb (prefix "rawdb." t) || ends_with "(batch)" t) skeleton_bodydb_append &&
+  Nat.eqb (count_str "batch.Write" skeleton_bodydb_append) 1 &&
+  Nat.eqb (count_str "batch.Write" (drop_until "Apply(batch)" skeleton_bodydb_append)) 1.
+
+(* SetCurrentHeader: the canonical hash is the only write before AppendBlock; on error it is deleted again and
+   the error returned; head pointers are written only afterwards *)
+Definition canonical_hash_deleted_on_error : bool :=
+  strs_eqb (filter is_db_write_token (take_until "AppendBlock" skeleton_set_current_header)) ["rawdb.WriteCanonicalHash"] &&
+  starts_with_tokens ["if-err{"; "rawdb.DeleteCanonicalHash"; "return-err"; "}"] (drop_until "AppendBlock" skeleton_set_current_header) &&
+  negb (existsb (str_eqb "currentHeader.Store") (take_until "AppendBlock" skeleton_set_current_header)) &&
+  existsb (str_eqb "currentHeader.Store") (drop_until "AppendBlock" skeleton_set_current_header).
+
+(* Apply: Process and ValidateState come first, each followed by an error return; every write / trie commit comes after *)
+Definition is_write (s : string) : bool :=
+  existsb (fun p => prefix p s) ["rawdb.Write"; "rawdb.Delete"; "rawdb.Create"; "AddBloom"] ||
+  existsb (fun p => str_eqb p s) ["statedb.Commit"; "statedb.CommitEtxs"; "p.stateCache.TrieDB().Commit"; "p.etxCache.TrieDB().Commit"].
 Definition apply_validates_before_any_write : bool :=
   negb (existsb is_write (take_until "ValidateState" skeleton_apply)) &&
   match drop_until "Process" skeleton_apply with
